@@ -1,6 +1,6 @@
 (* C25 — corollaries, and witnesses on which the code as it is (fixed = false) violates clauses of the property. *)
 From Coq Require Import ZArith List Bool Lia Sorted.
-From SH Require Import Table.Model Table.Proofs Table.ProofsTable Table.ProofsLimit Table.ProofsSort Table.ProofsWindow.
+From SH Require Import Table.Model Table.Proofs Table.ProofsTable Table.ProofsLimit Table.ProofsSort Table.ProofsWindow Table.ProofsMore.
 Import ListNotations.
 Open Scope Z_scope.
 
@@ -21,12 +21,13 @@ Proof.
     unfold true_le, row_le in *. rewrite <- (H x (or_introl eq_refl)), <- (H y (or_intror Hy)). exact Fx.
 Qed.
 
-Theorem rows_sorted_true_fixed : forall whats lods by_ by_s from to fe num desired store,
+Theorem rows_sorted_true_fixed : forall fx whats lods by_ by_s from to fe num desired store,
+  f_tags fx = true -> f_skey fx = true ->
   StronglySorted (fun a b => true_le by_ by_s fe a b = true)
-    (table_rows true whats lods by_ by_s from to fe num desired store).
+    (table_rows fx whats lods by_ by_s from to fe num desired store).
 Proof.
-  intros. apply sorted_transport; [apply rows_sorted|].
-  intros o Ho. eapply marker_describes_row_fixed; eauto.
+  intros fx whats lods by_ by_s from to fe num desired store Ht Hs. apply sorted_transport; [apply rows_sorted|].
+  intros o Ho. eapply (marker_describes_row_fixed fx Ht Hs); eauto.
 Qed.
 
 (* ---------- at most 7 functions: one function group, so the limit bounds the whole table ---------- *)
@@ -56,9 +57,9 @@ Definition w_whats8 : list Z := [1; 4; 7; 8; 9; 15; 23; 26].
 
 Lemma one_column_refuted :
   exists whats lods by_ by_s from to fe num desired store,
-    (forall p, NoDup (map rkey (pass_flat false lods from to fe num store p))) /\
-    panics false whats lods from to fe num store = false /\
-    exists o, In o (table_rows false whats lods by_ by_s from to fe num desired store) /\
+    (forall p, NoDup (map rkey (pass_flat (fx_all false) lods from to fe num store p))) /\
+    panics (fx_all false) whats lods from to fe num store = false /\
+    exists o, In o (table_rows (fx_all false) whats lods by_ by_s from to fe num desired store) /\
               length (o_data o) <> length whats.
 Proof.
   exists w_whats8, w_lods, [], false, w_m0, w_m0, false, 10, 0, w_store_a.
@@ -70,9 +71,9 @@ Qed.
 
 (* the same input is aligned in the repaired variant (non-vacuity of its hypothesis on a two-group query) *)
 Lemma one_column_fixed_nonvacuous :
-  (forall p, NoDup (map rkey (pass_flat true w_lods w_m0 w_m0 false 10 w_store_a p))) /\
-  map (fun o => length (o_data o)) (table_rows true w_whats8 w_lods [] false w_m0 w_m0 false 10 0 w_store_a) = [8%nat; 8%nat] /\
-  map o_data (table_rows true w_whats8 w_lods [] false w_m0 w_m0 false 10 0 w_store_a) =
+  (forall p, NoDup (map rkey (pass_flat (fx_all true) w_lods w_m0 w_m0 false 10 w_store_a p))) /\
+  map (fun o => length (o_data o)) (table_rows (fx_all true) w_whats8 w_lods [] false w_m0 w_m0 false 10 0 w_store_a) = [8%nat; 8%nat] /\
+  map o_data (table_rows (fx_all true) w_whats8 w_lods [] false w_m0 w_m0 false 10 0 w_store_a) =
     [[Some 4; Some 8; Some 2; Some 0; Some 1; Some 1; Some 0; Some 0];
      [None; None; None; None; None; None; None; Some 0]].
 Proof.
@@ -82,7 +83,7 @@ Qed.
 (* F-C25b: 8 functions sharing selectors form ONE group of 8; appendRowValues indexes tsWhat (7 entries) with 7: panic *)
 Lemma no_panic_refuted :
   exists whats lods by_ by_s from to fe num desired store,
-    table false whats lods by_ by_s from to fe num desired store = None.
+    table (fx_all false) whats lods by_ by_s from to fe num desired store = None.
 Proof.
   exists [1; 2; 3; 4; 5; 6; 7; 8], w_lods, [], false, w_m0, w_m0, false, 10, 0, (fun _ _ => [[w_row 101 1 []]]).
   vm_compute; reflexivity.
@@ -91,7 +92,7 @@ Qed.
 (* F-C25c: has-more is raised by a further row OUTSIDE the window: limit 1, window (.., (101, tag0=2)) exclusive *)
 Lemma has_more_refuted :
   exists from to fe gs limit,
-    snd (limit_queries false from to fe gs limit) = true /\ ~ (Z.max 0 limit < cnt from to fe (concat gs)).
+    snd (limit_queries (fx_all false) from to fe gs limit) = true /\ ~ (Z.max 0 limit < cnt from to fe (concat gs)).
 Proof.
   exists w_m0, (mkMarker 101 [(0, 2)] []), false, [[w_row 101 1 []; w_row 101 2 []]], 1.
   split; [vm_compute; reflexivity | vm_compute; intros H; discriminate].
@@ -105,7 +106,7 @@ Qed.
 Lemma window_complete_refuted :
   exists from to fe gs limit r,
     In r (concat gs) /\ in_range from to fe r = true /\ cnt from to fe (concat gs) <= limit /\
-    ~ In r (fst (limit_queries false from to fe gs limit)) /\ snd (limit_queries false from to fe gs limit) = false.
+    ~ In r (fst (limit_queries (fx_all false) from to fe gs limit)) /\ snd (limit_queries (fx_all false) from to fe gs limit) = false.
 Proof.
   exists (mkMarker 101 [(0, 1)] []), (mkMarker 101 [(0, 3)] []), false,
          [[w_row 101 1 []; w_row 101 2 []; w_row 101 3 []]], 10, (w_row 101 2 []).
@@ -117,7 +118,7 @@ Qed.
    last row with themselves and falls through to the string key: rows come out in the wrong order, with wrong markers *)
 Lemma sorted_refuted :
   exists whats lods by_ by_s from to num desired store a b,
-    table false whats lods by_ by_s from to false num desired store = Some ([a; b], false) /\
+    table (fx_all false) whats lods by_ by_s from to false num desired store = Some ([a; b], false) /\
     less (repr_of by_ by_s (o_row b)) (repr_of by_ by_s (o_row a)) = true /\
     o_repr b <> repr_of by_ by_s (o_row b).
 Proof.
@@ -128,7 +129,7 @@ Qed.
 (* F-C25f: a row without string key inherits rowRepr.SKey of the previously processed row *)
 Lemma stale_skey_refuted :
   exists whats lods by_ by_s from to num desired store o,
-    In o (table_rows false whats lods by_ by_s from to false num desired store) /\
+    In o (table_rows (fx_all false) whats lods by_ by_s from to false num desired store) /\
     m_skey (o_repr o) <> m_skey (repr_of by_ by_s (o_row o)).
 Proof.
   exists [1], w_lods, [], true, w_m0, w_m0, 10, 0, (fun _ _ => [[w_row 101 1 [97]; w_row 101 2 []]]).
@@ -145,8 +146,8 @@ Definition nv_lods : list lod := [mkLod 100 110 1; mkLod 110 120 2].
 
 Lemma upto7_nonvacuous :
   (length [3; 6] <= ts_value_count)%nat /\
-  NoDup (map rkey (pass_flat false nv_lods (mkMarker 101 [(0, 1)] []) w_m0 false 3 nv_store O)) /\
-  table false [3; 6] nv_lods [] false (mkMarker 101 [(0, 1)] []) w_m0 false 3 0 nv_store =
+  NoDup (map rkey (pass_flat (fx_all false) nv_lods (mkMarker 101 [(0, 1)] []) w_m0 false 3 nv_store O)) /\
+  table (fx_all false) [3; 6] nv_lods [] false (mkMarker 101 [(0, 1)] []) w_m0 false 3 0 nv_store =
     Some ([mkO (w_row 101 2 [97]) [Some 4; Some 8] (mkMarker 101 [] []);
            mkO (w_row 103 1 []) [Some 4; Some 8] (mkMarker 103 [] []);
            mkO (w_row 111 1 []) [Some 4; Some 8] (mkMarker 111 [] [])], true).
@@ -155,8 +156,20 @@ Proof.
 Qed.
 
 Lemma has_more_nonvacuous :
-  snd (limit_queries true w_m0 w_m0 false (nv_store 0 0)%nat 2) = true /\
+  snd (limit_queries (fx_all true) w_m0 w_m0 false (nv_store 0 0)%nat 2) = true /\
   Z.max 0 2 < cnt w_m0 w_m0 false (concat (nv_store 0 0)%nat) /\
-  snd (limit_queries true w_m0 w_m0 false (nv_store 0 0)%nat 3) = false /\
-  snd (limit_queries false w_m0 w_m0 true (nv_store 0 0)%nat 2) = true.
+  snd (limit_queries (fx_all true) w_m0 w_m0 false (nv_store 0 0)%nat 3) = false /\
+  snd (limit_queries (fx_all false) w_m0 w_m0 true (nv_store 0 0)%nat 2) = true.
 Proof. repeat split; vm_compute; reflexivity. Qed.
+
+(* cross-LOD has-more: 3 + 2 in-window rows over two LODs, limit 3 reached inside the second LOD; limit 5 = all rows *)
+Lemma has_more_all_lods_nonvacuous :
+  (forall p k r, In r (concat (nv_store p k)) -> 0 <= r_time r <= max_int) /\
+  window_total nv_lods w_m0 w_m0 false nv_store O = 5 /\
+  table_more (fx_all true) [1] nv_lods [] false w_m0 w_m0 false 3 0 nv_store = true /\
+  table_more (fx_all true) [1] nv_lods [] false w_m0 w_m0 false 5 0 nv_store = false /\
+  table_more (fx_all true) [1] nv_lods [] false w_m0 w_m0 true 4 0 nv_store = true.
+Proof.
+  split; [|repeat split; vm_compute; reflexivity].
+  intros p [|k] r H; simpl in H; unfold max_int; intuition subst; simpl; lia.
+Qed.
